@@ -1,4 +1,4 @@
 ---- MODULE MCT_bind ----
 EXTENDS MCTypes
-Space == SBind(0)
+Space == SBind(0) \cup SSame(0)
 ====
